@@ -241,6 +241,13 @@ def shapes(tier, warnings=('all', 'none')):
              '  ur1 : b;\n  ur2 : SELF\\sup.a;\nEND_ENTITY;\n'))
     add('SELF in a SUPERTYPE OF expression', 'entity', wrap('ENTITY e0\n  SUPERTYPE OF (e3 ANDOR SELF);\nEND_ENTITY;\nENTITY e3\n  SUBTYPE OF (e0);\nEND_ENTITY;\n'))
     add('literal in a SUPERTYPE OF expression', 'entity', wrap('ENTITY e0\n  SUPERTYPE OF (ONEOF (e3, 1));\nEND_ENTITY;\nENTITY e3\n  SUBTYPE OF (e0);\nEND_ENTITY;\n'))
+    add('NVL with one argument', 'function body', wrap('FUNCTION f(n : INTEGER) : INTEGER;\n  RETURN (NVL(n));\nEND_FUNCTION;\n' + ent()))
+    add('NVL without arguments', 'function body', wrap('FUNCTION f(n : INTEGER) : INTEGER;\n  RETURN (NVL());\nEND_FUNCTION;\n' + ent()))
+    add('NVL with three arguments', 'function body', wrap('FUNCTION f(n : INTEGER) : INTEGER;\n  RETURN (NVL(n, 1, 2));\nEND_FUNCTION;\n' + ent()))
+    for n in (1, 5, 6, 20):
+        add('%d INCLUDE directives' % n, 'naming the input file itself', wrap("INCLUDE '@SELF@';\n" * n + ent()),
+            label='6 or more INCLUDE directives' if n >= 6 else 'up to 5 INCLUDE directives')
+    add('INCLUDE directive', 'naming a missing file', wrap("INCLUDE 'no_such_file.exp';\n" + ent()))
     add('subtype cycle', 'attribute looked up through the cycle',
         wrap('ENTITY a\n  SUBTYPE OF (b);\n  x : INTEGER;\nEND_ENTITY;\nENTITY b\n  SUBTYPE OF (a);\n  y : INTEGER;\nEND_ENTITY;\n'
              'ENTITY c\n  SUBTYPE OF (b);\n  z : INTEGER;\nDERIVE\n  SELF\\a.x : INTEGER := 1;\nEND_ENTITY;\n'))
